@@ -370,6 +370,12 @@ static void run_case(vf::Draw& d, vf::Case& c)
                 // nu(lambda) = (lambda - Re sigma) / ((lambda - Re sigma)^2 + (Im sigma)^2) vanishes at lambda = Re sigma, where the
                 // back-transformation divides by nu: an eigenvalue there is outside the method's domain, like sigma on an eigenvalue
                 dm = std::min(dm, std::abs(l - cld(s.real(), 0)));
+                // on the circle |lambda - Re sigma| = |Im sigma| the map nu(lambda) has its branch points: a conjugate pair on it is mapped to ONE
+                // real double eigenvalue of the iterated operator and cannot be separated by a real iteration (two eigenvalues with equal nu: no
+                // residual scale exists). Keep every eigenvalue 1 % of the spectral radius away from that circle; the deliberately constructed
+                // real eigenvalue on the circle (class "critical_sigma_construction") is added separately below
+                if (sigi > 0)
+                    dm = std::min(dm, std::abs(std::abs(l - cld(s.real(), 0)) - sigi));
             }
             if (dm >= (ld) 0.01 * rad)
                 good.push_back(s);
